@@ -65,14 +65,20 @@ Ids == {IdSeq[i] : i \in DOMAIN IdSeq}
 
 (***************************************************************************)
 (* Metadata values.  One record shape for all, so TLC can compare them.    *)
-(* Strings that look like numbers or booleans are ambiguous by design      *)
-(* (the grammar has no typed literals) and are not part of the universe.   *)
+(* Strings that look like booleans are ambiguous by design (the grammar has *)
+(* no typed literals) and are not part of the universe.  Strings that LOOK *)
+(* like numbers are part of it: "7" and 7 are two distinct values of a     *)
+(* field.  NumStr gives the numeric reading of the numeric-looking strings *)
+(* of the universe ("1.0" is a second spelling of the reading 1).          *)
 (***************************************************************************)
 Absent  == [t |-> "absent", s |-> "", n |-> 0, l |-> <<>>]
 Str(x)  == [t |-> "str",  s |-> x,  n |-> 0, l |-> <<>>]
 Num(x)  == [t |-> "num",  s |-> "", n |-> x, l |-> <<>>]
 Bool(x) == [t |-> "bool", s |-> IF x THEN "true" ELSE "false", n |-> 0, l |-> <<>>]
 List(x) == [t |-> "list", s |-> "", n |-> 0, l |-> x]
+
+NumStr == [x \in {"1", "1.0", "2"} |-> IF x = "2" THEN 2 ELSE 1]
+IsNumStr(x) == x \in DOMAIN NumStr
 
 EmptyMeta == [k \in MKeys |-> Absent]
 IsEmpty(m) == \A k \in MKeys : m[k] = Absent
@@ -83,10 +89,23 @@ Overlay(old, p) == [k \in MKeys |-> IF p[k] # Absent THEN p[k] ELSE old[k]]   \*
 (* A clause is [k, op, num, n, s]: key, operator, and a literal which is   *)
 (* numeric (num = TRUE, value n) or textual (s).  The grammar writes both  *)
 (* the same way (quotes are optional), a literal is numeric iff it parses  *)
-(* as a number.                                                            *)
+(* as a number.  A clause with num = TRUE is written bare (k = 1), a        *)
+(* textual one whose text looks numeric is written quoted (k = '1.0').     *)
+(*                                                                         *)
+(* Eval is the lenient reading the evaluator states for itself ("string    *)
+(* values that LOOK numeric must also match"): a literal matches a string  *)
+(* with the same text AND a number with the same numeric reading.  The     *)
+(* documentation only says "exact match for strings, equality for          *)
+(* numbers"; whether a quoted '1' equals the number 1, or a bare 1 the     *)
+(* string "1" / "1.0", it does not say.  ClearPair marks the (value,       *)
+(* clause) pairs whose answer does not depend on that: only filters that   *)
+(* are clear for every live id are judged on the engine (Emit_Corpus).     *)
+(* Range operators are numeric comparisons: they select numbers only.      *)
 (***************************************************************************)
 Digits == <<"0", "1", "2", "3", "4", "5", "6", "7", "8", "9">>
 LitTxt(c) == IF c.num THEN Digits[c.n + 1] ELSE c.s          \* literals are 0..9 or words
+LitNum(c) == c.num \/ IsNumStr(c.s)                          \* the literal parses as a number ...
+LitVal(c) == IF c.num THEN c.n ELSE NumStr[c.s]              \* ... with this value
 
 Cmp(op, a, b) == CASE op = "<"  -> a < b
                    [] op = "<=" -> a <= b
@@ -96,7 +115,7 @@ Cmp(op, a, b) == CASE op = "<"  -> a < b
 EvalEq(v, c) ==
   \/ v.t = "str"  /\ v.s = LitTxt(c)                          \* exact match for strings
   \/ v.t = "bool" /\ v.s = LitTxt(c)                          \* booleans match their text true / false
-  \/ v.t = "num"  /\ c.num /\ v.n = c.n                       \* equality for numbers
+  \/ v.t = "num"  /\ LitNum(c) /\ v.n = LitVal(c)              \* equality for numbers
   \/ v.t = "list" /\ \E i \in DOMAIN v.l : v.l[i] = LitTxt(c) \* list membership
 
 EvalClause(m, c) ==
@@ -104,6 +123,13 @@ EvalClause(m, c) ==
   CASE c.op = "="  -> EvalEq(v, c)
     [] c.op = "!=" -> ~EvalEq(v, c)                           \* also true when the field is absent
     [] OTHER       -> v.t = "num" /\ c.num /\ Cmp(c.op, v.n, c.n)
+
+\* the answer for value v does not depend on how typed the reading of the literal is
+ClearPair(v, c) ==
+  IF c.op \notin {"=", "!="} THEN TRUE
+  ELSE CASE v.t = "num" -> c.num \/ ~IsNumStr(c.s)                   \* a quoted numeric text against a number: undocumented
+         [] v.t = "str" /\ IsNumStr(v.s) -> ~c.num \/ NumStr[v.s] # c.n   \* a bare number against a string that reads the same: undocumented
+         [] OTHER -> TRUE
 
 \* a filter is a set of blocks (OR), a block a set of clause numbers (AND): OR binds weaker than AND
 Eval(m, f) == \E blk \in f : \A ci \in blk : EvalClause(m, Clauses[ci])
@@ -192,7 +218,7 @@ DelMeta(x, iid) ==
 
 \* ---- evaluateBooleanFilter on one clause, over inverted index I
 ClauseIdx(x, I, c) ==
-  LET fromBt  == IF c.num THEN {e[3] : e \in {y \in x.bt : y[1] = c.k /\ y[2] = c.n}} ELSE {}
+  LET fromBt  == IF LitNum(c) THEN {e[3] : e \in {y \in x.bt : y[1] = c.k /\ y[2] = LitVal(c)}} ELSE {}   \* strconv.ParseFloat(valueStr)
       fromInv == {e[3] : e \in {y \in I : y[1] = c.k /\ y[2] = LitTxt(c)}}
   IN CASE c.op = "="  -> fromBt \cup fromInv
        [] c.op = "!=" -> ValidIIDs(x) \ (fromBt \cup fromInv)
@@ -278,7 +304,8 @@ Compressed(x) ==
 \* ---- per-clause results of the current state (see the variable tab)
 ExpTable    == [ci \in 1..NC |-> {id \in live : EvalClause(truth[id], Clauses[ci])}]
 IdxTable(I) == [ci \in 1..NC |-> ClauseIdx(ix, I, Clauses[ci])]
-Tables == [exp |-> ExpTable, idx |-> IdxTable(ix.inv), pin |-> IdxTable(ix.invd)]
+ClrTable    == [ci \in 1..NC |-> \A id \in live : ClearPair(truth[id][Clauses[ci].k], Clauses[ci])]
+Tables == [exp |-> ExpTable, idx |-> IdxTable(ix.inv), pin |-> IdxTable(ix.invd), clr |-> ClrTable]
 
 (***************************************************************************)
 (* Engine operations (pkg/engine/ops.go): journal, then apply.             *)
@@ -456,16 +483,18 @@ Mask(S) == MaskFrom(S, 1)
 
 \* the basis, printed once (the harness renders filter number fi from this list)
 BasisJson == [fi \in 1..NF |-> SeqOfSet({SeqOfSet(blk) : blk \in Basis[fi]})]
-Emit_Basis == PrintT(<<"BASIS", ToJson([clauses |-> Clauses, filters |-> BasisJson])>>)
+Emit_Basis == PrintT(<<"BASIS", ToJson([clauses |-> Clauses, filters |-> BasisJson, numstr |-> NumStr])>>)
 ASSUME Emit_Basis
 
 \* corpus channel: one record per expanded state = the history that reached it first, the result
 \* every basis filter must have after it (bit j = IdSeq[j]) and, where the pinned code is predicted
 \* to answer differently, its predicted answers
 \* (scripted mode: the record carries the history's number and length instead of the history)
+\* a filter that is not clear in this state (see ClearPair) is not judged: -1
 Emit_Corpus ==
-  LET exp == [fi \in 1..NF |-> Mask(ExpectedT(tab.exp, Basis[fi]))]
-      pin == [fi \in 1..NF |-> Mask(VFilterT(tab.pin, Basis[fi]))]
+  LET clear(f) == \A blk \in f : \A ci \in blk : tab.clr[ci]
+      exp == [fi \in 1..NF |-> IF clear(Basis[fi]) THEN Mask(ExpectedT(tab.exp, Basis[fi])) ELSE -1]
+      pin == [fi \in 1..NF |-> IF clear(Basis[fi]) THEN Mask(VFilterT(tab.pin, Basis[fi])) ELSE -1]
   IN PrintT(<<"CORPUS", ToJson([ops |-> IF wi = 0 THEN ops ELSE <<>>, w |-> wi, n |-> Len(ops), exp |-> exp, live |-> Mask(live),
                                 pin |-> IF pin = exp THEN <<>> ELSE pin])>>)
 NextCorpus == Emit_Corpus /\ Next
